@@ -21,7 +21,7 @@ JUDGE_CFG, TRACE_CFG = "OsmCoreJudge.cfg", "OsmCoreTrace.cfg"
 MC_QUICK = [("OsmCore_mc_q_containers.cfg", 3), ("OsmCore_mc_q_change.cfg", 3), ("OsmCore_mc_q_tags.cfg", 1), ("OsmCore_mc_q_refs.cfg", 1)]
 MC_THOROUGH = [("OsmCore_mc_t_containers.cfg", 4), ("OsmCore_mc_t_change.cfg", 4), ("OsmCore_mc_t_tags.cfg", 3), ("OsmCore_mc_t_refs.cfg", 4)]
 
-WALKS = {"quick": 460, "thorough": 4600}      # behaviours of tlc -simulate (call mixes and lengths: OsmCoreGen!Plans)
+WALKS = {"quick": 800, "thorough": 5000}      # behaviours of tlc -simulate (call mixes and lengths: OsmCoreGen!Plans)
 ALL_LEN = {"quick": 2, "thorough": 3}
 GROUP = {"quick": 110, "thorough": 160}     # sequences per trace-validation run (few, larger TLC runs: start-up and slot waits dominate)
 
@@ -231,6 +231,36 @@ def account_mc(ctx, res):
             raise vlib.Infra("model check %s did not pass (rc=%s, %s):\n%s" % (cfg, r.rc, r.violation, r.out[-5000:]))
 
 
+def mechanism_counts(recs):
+    """How often the recorded steps exercise the mechanisms (plain counting over the records, for the evidence)."""
+    n = {"sorts": 0, "sorts_of_2plus": 0, "sorts_of_unsorted_slice": 0, "sorts_same_id_versions_out_of_order": 0,
+         "datasources": 0, "datasources_with_multi_version_history": 0, "change_datasources_flipping_visible": 0,
+         "appends_of_existing_pointer": 0, "steps_with_duplicate_tag_keys": 0}
+    for r in recs:
+        g = r["got"]
+        for i in range(1, len(g)):
+            if g[i].get("e") != "op":
+                continue
+            op, prev, cur = g[i]["op"], g[i - 1]["st"], g[i]["st"]
+            if op["op"] == "sort":
+                h, sl = prev["heap"], prev[op["to"]][op["k"]]
+                keys = [(h[s - 1]["id"], h[s - 1]["v"]) for s in sl if 1 <= s <= len(h)]
+                n["sorts"] += 1
+                n["sorts_of_2plus"] += len(sl) >= 2
+                n["sorts_of_unsorted_slice"] += keys != sorted(keys)
+                n["sorts_same_id_versions_out_of_order"] += any(keys[a][0] == keys[b][0] and keys[a][1] > keys[b][1]
+                                                                for a in range(len(keys)) for b in range(a + 1, len(keys)))
+            elif op["op"] in ("docds", "chgds"):
+                n["datasources"] += 1
+                n["datasources_with_multi_version_history"] += any(len(e[1]) >= 2 for k in ("node", "way", "relation") for e in cur["ds"][k])
+                n["change_datasources_flipping_visible"] += op["op"] == "chgds" and prev["heap"] != cur["heap"]
+            elif op["op"] == "append":
+                n["appends_of_existing_pointer"] += op["s"] <= len(prev["heap"])
+            ks = [t[0] for t in cur["tags"]]
+            n["steps_with_duplicate_tag_keys"] += len(ks) != len(set(ks))
+    return n
+
+
 class _Timer:
     def __init__(self):
         self.t = time.time()
@@ -292,6 +322,7 @@ def run(ctx):
         for o in c["ops"]:
             ctx.extra["calls_by_kind"][o["op"]] = ctx.extra["calls_by_kind"].get(o["op"], 0) + 1
 
+    ctx.extra["mechanism_counts"] = mechanism_counts(recs)
     confirmed = vlib.judge_and_confirm(ctx, cases, recs, lambda cs: execute(ctx, cs), lambda rs: judge(ctx, rs))
     T("judge")
     if ctx.violations:
